@@ -100,6 +100,14 @@ func vfC02Variants() []vfVariant {
 	add("dualstack-client-12server", c, false)
 	c.CVer, c.SVer = "13", "dual"
 	add("13client-dualstack-server", c, false)
+	// peers with different retransmission intervals: each side's own timer must still recover its lost flight
+	c = vfBaseCfg(vfSuiteByName("ECDSA-GCM128"), "ecdsa")
+	c.IvC, c.IvS, c.NoBackoffC = 50*time.Millisecond, 300*time.Millisecond, true
+	add("12-asym-intervals", c, false)
+	c = vfBaseCfg(vfSuiteByName("13-GCM128"), "ecdsa")
+	c.CVer, c.SVer, c.HelloVerify = "13", "13", false
+	c.IvC, c.IvS, c.NoBackoffC = 50*time.Millisecond, 300*time.Millisecond, true
+	add("13-asym-intervals", c, false)
 	// small ServerHello (classical curve only): the DTLS 1.3 server packs its protected flight into the same datagram
 	c = vfBaseCfg(vfSuiteInfo{Name: "default", Auth: "ecdsa"}, "ecdsa")
 	c.CVer, c.SVer, c.Curves, c.HelloVerify = "dual", "13", 1, false
@@ -159,6 +167,10 @@ func vfC02Run(v vfVariant, mask vfMask, interval time.Duration) vfC02Outcome {
 		p.Close()
 		synctest.Wait()
 	}()
+	if v.Cfg.IvS > 0 || v.Cfg.IvC > 0 {
+		// the bound is stated for the slower side's interval
+		interval = max(v.Cfg.IvC, v.Cfg.IvS)
+	}
 	bound := vfBackoffSum(mask.Faults()+3, interval, true)
 	cAt, sAt := p.HandshakeTimed(bound + 5*time.Second)
 	out := vfC02Outcome{Applied: st.Applied(), CAt: cAt, SAt: sAt, Datagrams: len(n.Emissions(""))}
